@@ -47,7 +47,9 @@ def _digest(src):
 
 
 def _prune(keep_dir):
-    """Remove all but the KEEP most recently used build directories."""
+    """Remove all but the KEEP most recently used build directories (ensure() touches
+    the object on every use, so the build of the unchanged tree is not the first to go
+    during a series of mutant runs)."""
     try:
         ds = [os.path.join(BUILD_ROOT, d) for d in os.listdir(BUILD_ROOT)]
         ds = [d for d in ds if os.path.isdir(d) and d != keep_dir and
@@ -67,6 +69,10 @@ def ensure():
     d = os.path.join(BUILD_ROOT, _digest(src))
     so = os.path.join(d, SO_NAME)
     if os.path.isfile(so):
+        try:
+            os.utime(so, None)      # _prune keeps the most recently USED builds
+        except OSError:
+            pass
         return so
     os.makedirs(d, exist_ok=True)
     with open(os.path.join(d, 'build.lock'), 'w') as lock:
